@@ -52,13 +52,12 @@ Section ConfCodecs.
 
   Theorem conf_optional_roundtrip (fs : list (list Z * bool * ty codec)) vs :
     let t := TStruct fs in let v := VStruct vs in
-    ty_ok codec t = true -> ptr_omit codec fs = true -> ty_ok codec (optionalize codec t) = true ->
-    forallb known_codec (codecs_of codec (optionalize codec t)) = true ->
+    ty_ok codec t = true -> forallb known_codec (codecs_of codec t) = true ->
     wf codec cval cwf t v ->
     dec codec cval cdec czero (optionalize codec t) (enc codec cval cenc t v) = Some (lift codec cval t v) /\
     patch codec cval t v (lift codec cval t v) = v.
   Proof.
-    cbv zeta. intros Hok Hpo Hok' Hk Hw. apply (optional_roundtrip codec cval cenc cdec cwf czero fs vs); try assumption.
+    cbv zeta. intros Hok Hk Hw. apply (optional_roundtrip codec cval cenc cdec cwf czero fs vs); try assumption.
     intros c Hc. apply known_codec_ok. rewrite forallb_forall in Hk. apply Hk, Hc.
   Qed.
 End ConfCodecs.
